@@ -91,6 +91,12 @@ class Client:
         return None
 
 
+def flat_name(uri):
+    """The file-dictionary name of a document: the segments of its decoded path, each followed by '%'."""
+    from urllib.parse import unquote, urlparse
+    return "".join(seg + "%" for seg in unquote(urlparse(uri).path).split("/") if seg)
+
+
 def full_session(c, docdir, texts, sweep_step=2):
     """Every notification and command except the user-initiated HarperOpen."""
     c.request("initialize", {"capabilities": {}, "processId": None, "rootUri": None})
@@ -176,6 +182,12 @@ def random_session(c, docdir, rng, corpus, ndocs=4, nops=18, pol=None):
         with open(path, "w") as f:
             f.write(text)
         uri = "file://" + path if rng.random() < 0.85 else f"untitled:Untitled-{k}"
+        if uri.startswith("file://") and rng.random() < 0.35:
+            # the same kind of document under a URI with escaped characters (the file need not exist)
+            uri = "file://" + docdir + "/" + rng.choice([f"sub%2F..%2F..%2F..%2Fout{k}.{ext}", f"%2Ftmp%2Fhv_escape%2Fr{k}.{ext}", f"a%20b/r{k}%2Etxt.{ext}",
+                                                          f"r{k}%2f%2e%2e%2fup.{ext}", f"caf%C3%A9/r{k}.{ext}"])
+            if pol is not None:
+                pol.setdefault("fileDictNames", set()).add(flat_name(uri))
         docs.append({"uri": uri, "path": path, "lang": lang, "prefix": prefix, "text": text, "open": False, "ver": 1})
     for d in docs:
         c.notify("textDocument/didOpen", {"textDocument": {"uri": d["uri"], "languageId": d["lang"], "version": 1, "text": d["text"]}})
